@@ -5,4 +5,5 @@ CONSTANTS
   Kinds = {"out"}
   Outcomes = {"ok"}
   EarlyEnd = TRUE
+  WithDrop = FALSE
 PROPERTIES RefinesRpc
